@@ -45,7 +45,7 @@ groups = {
  'C04': STREAM + ['streamBody', 'SetBinlogPositionSrc', 'binlogPositionSrc'],
  'C05': ['streamBody', 'errorSrc', 'readerBody', 'startDumpSrc', 'conn_closeSrc', 'errChanCap', 'eventChanCap',
          'newSlaveConnectionSrc', 'loopSkeleton'],
- 'C06': ['streamBody', 'errorSrc', 'readerBody', 'conn_readBinlogEventSrc', 'errChanCap', 'parseEventsReturns', 'loopSkeleton',
+ 'C06': STREAM + ROWCONV + ['streamBody', 'errorSrc', 'readerBody', 'conn_readBinlogEventSrc', 'errChanCap', 'parseEventsReturns', 'loopSkeleton',
          'error_newErrorSrc', 'error_msgfSrc', 'error_OriginalSrc', 'error_ErrorSrc', 'error_ErrorFormats'],
  'C07': ['execLiterals', 'noticeDumpCalls', 'prepareForReplicationSrc', 'startDumpSrc', 'newSlaveConnectionSrc', 'streamBody',
          'SetBinlogPositionSrc', 'binlogPositionSrc'],
